@@ -254,11 +254,11 @@ def gen_struct(rng, tier, dist, n):
             addr = "/" + "/".join("".join(rng.choice("abcxyz019_#*?") for _ in range(rng.randint(1, 6)))
                                   for _ in range(rng.randint(1, 3)))
             bump("message")
-            kind = "xm" if any(v.startswith("t:") or v.startswith("a:97:") for v in vals) else "pm"
+            kind = "xm" if any(v.startswith("t:") for v in vals) else "pm"
             out.append("%s %d %d %d 1 %s %s" % (kind, ll, prec, compress, ";".join(vals), addr.encode().hex()))
         else:
             # time tags (other than in the Spec oracle) are not in the Coq model
-            kind = "xp" if any(v.startswith("t:") or v.startswith("a:97:") for v in vals) else "pp"
+            kind = "xp" if any(v.startswith("t:") for v in vals) else "pp"
             bump("stream:" + kind)
             out.append("%s %d %d %d 1 %s" % (kind, ll, prec, compress, ";".join(vals)))
     return out
@@ -419,6 +419,8 @@ LEVEL_TEXT = ("Partial. Model: printer (all scalar types, range conversion with 
               "every non-float scalar); both recognisers read NxV repetitions back (C10_repetition_reads_partial). The "
               "model/implementation stream runs with compression on, arrays and messages. Stage 3: C10_roundtrip_any_partial - the "
               "list-level round trip for EVERY option record (compression on or off) for int/char/keyword/string lists "
-              "(goodc), results compared by expansion.")
+              "(goodc), results compared by expansion. Stage 5: C10_array_roundtrip_partial - the same for a list that is one array "
+              "of goodc values of one type, with runs inside it compressed and line breaks between elements (the array loops of "
+              "printer, checker and scanner; element count and array type of the scanned header).")
 LEVEL_NOTE = ("Trusted: Coq kernel, extraction, OCaml driver (incl. its libc oracle for decimal float literals), harness, "
               "generators. FloatFmt.v (printf %f/%a, hex literal value) is concrete but unproved. See notes/C10.md.")
